@@ -184,7 +184,15 @@ func (c *EvalCtx) eval(e *Expr) CV {
 		}
 		body := n.eval(e.Args[0])
 		c.want(body, "Bool", e)
-		return CV{T: "(" + e.Name + " (" + strings.Join(bs, " ") + ") " + body.T + ")", Sort: "Bool"}
+		bt := body.T
+		if len(e.Args) > 1 {
+			var ps []string
+			for _, te := range e.Args[1:] {
+				ps = append(ps, n.eval(te).T)
+			}
+			bt = "(! " + bt + " :pattern (" + strings.Join(ps, " ") + "))"
+		}
+		return CV{T: "(" + e.Name + " (" + strings.Join(bs, " ") + ") " + bt + ")", Sort: "Bool"}
 	case "typeis":
 		x := c.eval(e.Args[0])
 		c.want(x, "Val", e)
@@ -251,6 +259,10 @@ func (c *EvalCtx) box(v CV) CV {
 	if v.Type == nil {
 		c.fail("cannot box untyped %s", v.T)
 	}
+	if v.StructRef {
+		ctor := c.w().ctorFor(types.NewPointer(v.Type))
+		return CV{T: "(" + ctor + " " + v.T + ")", Sort: "Val"}
+	}
 	ctor := c.w().ctorFor(v.Type)
 	if c.w().ctorType[ctor] == nil {
 		return CV{T: ctor, Sort: "Val"}
@@ -273,6 +285,9 @@ func (c *EvalCtx) ident(name string) CV {
 		return CV{T: minInt64, Sort: "Int"}
 	case "maxInt":
 		return CV{T: maxInt64, Sort: "Int"}
+	}
+	if hs, ok := c.w().heapSorts[name]; ok {
+		return CV{T: c.ex.heapTerm(c.st, name), Sort: hs}
 	}
 	if obj := c.pkgTypes().Scope().Lookup(name); obj != nil {
 		switch o := obj.(type) {
@@ -385,8 +400,21 @@ func (c *EvalCtx) index(x, i CV) CV {
 			}
 		}
 	}
-	if strings.HasPrefix(x.Sort, "(Array") {
-		return CV{T: sel(x.T, i.T), Sort: "?"}
+	if strings.HasPrefix(x.Sort, "(Array ") {
+		// (Array K E): strip the key sort
+		rest := strings.TrimSuffix(strings.TrimPrefix(x.Sort, "(Array "), ")")
+		k := strings.Index(rest, " ")
+		es := rest[k+1:]
+		cv := CV{T: sel(x.T, i.T), Sort: es}
+		switch es {
+		case "Int":
+			cv.Type = types.Typ[types.Int]
+		case "Str":
+			cv.Type = types.Typ[types.String]
+		case "Bool":
+			cv.Type = types.Typ[types.Bool]
+		}
+		return cv
 	}
 	c.fail("cannot index %s", x.Sort)
 	return CV{}
@@ -540,6 +568,31 @@ func (c *EvalCtx) call(e *Expr) CV {
 		return boolean(and(le(c.old.alloc, r), lt(r, c.st.alloc), sel(c.ghost("G_mine"), r)))
 	case "writable", "mine":
 		return boolean(sel(c.ghost("G_mine"), c.refOf(args()[0])))
+	case "elemAt":
+		// elemAt(s, i): element at ABSOLUTE position i of the backing array of slice s
+		a := args()
+		u, ok := a[0].Type.Underlying().(*types.Slice)
+		if !ok {
+			c.fail("elemAt of non-slice")
+		}
+		h := c.w().elemHeap(u.Elem())
+		return c.typed(sel(sel(c.ex.heapTerm(c.st, h), sArr(a[0].T)), a[1].T), u.Elem())
+	case "wf":
+		x := args()[0]
+		if x.Type != nil {
+			return boolean(c.ex.wfRefs(x.Type, x.T, c.st.alloc))
+		}
+		return boolean(c.ex.refsBelow(x.Sort, x.T, c.st.alloc))
+	case "wasMine":
+		if c.old == nil {
+			c.fail("wasMine() needs a pre-state")
+		}
+		return boolean(sel(c.with(c.old).ghost("G_mine"), c.refOf(args()[0])))
+	case "wasHeld":
+		if c.old == nil {
+			c.fail("wasHeld() needs a pre-state")
+		}
+		return boolean(sel(c.with(c.old).ghost("G_held"), args()[0].T))
 	case "held":
 		return boolean(sel(c.ghost("G_held"), args()[0].T))
 	case "escaped":
@@ -568,6 +621,12 @@ func (c *EvalCtx) call(e *Expr) CV {
 		return boolean("(fp.eq " + a[0].T + " " + a[1].T + ")")
 	case "typeName":
 		return CV{T: "(typeName (dyn " + args()[0].T + "))", Sort: "Str", Type: types.Typ[types.String]}
+	case "rangeKey":
+		a := args()
+		return CV{T: "(rangeKey " + a[0].T + " " + a[1].T + ")", Sort: "Str", Type: types.Typ[types.String]}
+	case "strLt":
+		a := args()
+		return boolean("(strLt " + a[0].T + " " + a[1].T + ")")
 	case "sameSlice":
 		a := args()
 		return boolean(eq(a[0].T, a[1].T))
